@@ -1,3 +1,4 @@
+import Noodles.Props.C15Text
 import Noodles.Hostile.Proof
 import Noodles.Hostile.BcfProof
 import Noodles.Hostile.CsiProof
